@@ -260,7 +260,7 @@ func writeText(format string, sl obiseq.BioSequenceSlice) []byte {
 	return obiformats.FormatFastqBatch(batch, obiformats.FormatFastSeqJsonHeader, false).Bytes()
 }
 
-func clip(s string) string {
+func clip02(s string) string {
 	if len(s) > 300 {
 		return s[:300] + "..."
 	}
@@ -331,15 +331,15 @@ func replayHdr(env *Env, c *c02Case) {
 				env.fail("C02.hdr.panic", cl, fmt.Sprintf("title line %q (%s, via %s): panic %s", text, parser, via, pmsg), c)
 			case !completed:
 				env.fail("C02.hdr.fatal", cl, fmt.Sprintf("title line %q is a valid JSON object + text, the %s parser (via %s) calls log.Fatal: %s",
-					text, parser, via, clip(strings.Join(lastFatal(), "; "))), c)
+					text, parser, via, clip02(strings.Join(lastFatal(), "; "))), c)
 			case nrec != 1 || s == nil:
 				env.fail("C02.hdr.records", cl, fmt.Sprintf("title line %q via %s: %d records parsed", text, via, nrec), c)
 			case gotAnn != wantAnn:
-				env.fail("C02.hdr.annotations", cl, fmt.Sprintf("title line %q (%s, via %s): annotations %s, specification %s", text, parser, via, clip(gotAnn), clip(wantAnn)), c)
+				env.fail("C02.hdr.annotations", cl, fmt.Sprintf("title line %q (%s, via %s): annotations %s, specification %s", text, parser, via, clip02(gotAnn), clip02(wantAnn)), c)
 			case !c.Merge && gotDef != wantDef:
 				env.fail("C02.hdr.definition", cl, fmt.Sprintf("title line %q (%s, via %s): definition %q, specification %q", text, parser, via, gotDef, wantDef), c)
 			case ann2 != canon(annotationsOf(s, false)) || text3 != text2:
-				env.fail("C02.hdr.reparse", cl, fmt.Sprintf("title line %q (%s, via %s): formatted header %q re-parsed gives %s then %q", text, parser, via, text2, clip(ann2), text3), c)
+				env.fail("C02.hdr.reparse", cl, fmt.Sprintf("title line %q (%s, via %s): formatted header %q re-parsed gives %s then %q", text, parser, via, text2, clip02(ann2), text3), c)
 			}
 			env.ok(cl)
 		}
@@ -416,7 +416,7 @@ func checkRecord(c *c02Case, sl obiseq.BioSequenceSlice, stage string) (string, 
 		return "C02.rt." + stage + ".id", fmt.Sprintf("identifier %q, specification \"s1\"", s.Id())
 	}
 	if string(s.Sequence()) != strings.Join(c.Seq, "") {
-		return "C02.rt." + stage + ".sequence", fmt.Sprintf("%d nucleotides read %q, specification %d", s.Len(), clip(string(s.Sequence())), len(c.Seq))
+		return "C02.rt." + stage + ".sequence", fmt.Sprintf("%d nucleotides read %q, specification %d", s.Len(), clip02(string(s.Sequence())), len(c.Seq))
 	}
 	if c.Fmt == "fastq" {
 		if !s.HasQualities() || !intsEqual(s.Qualities(), c.Rqual) {
@@ -426,7 +426,7 @@ func checkRecord(c *c02Case, sl obiseq.BioSequenceSlice, stage string) (string, 
 		return "C02.rt." + stage + ".qualities", "scores read from a FASTA text"
 	}
 	if got, want := canon(annotationsOf(s, false)), canon(caseAnnotations(c)); got != want {
-		return "C02.rt." + stage + ".annotations", fmt.Sprintf("annotations %s, specification %s", clip(got), clip(want))
+		return "C02.rt." + stage + ".annotations", fmt.Sprintf("annotations %s, specification %s", clip02(got), clip02(want))
 	}
 	if s.Definition() != c.defString() {
 		return "C02.rt." + stage + ".definition", fmt.Sprintf("definition %q, specification %q", s.Definition(), c.defString())
@@ -469,7 +469,7 @@ func replayRt(env *Env, c *c02Case) {
 			}
 			w1 := writeText(c.Fmt, r1)
 			if !bytes.Equal(w1, t1) {
-				assert, detail = "C02.rt.write_after_read", fmt.Sprintf("text written %q, specification %q", clip(string(w1)), clip(string(t1)))
+				assert, detail = "C02.rt.write_after_read", fmt.Sprintf("text written %q, specification %q", clip02(string(w1)), clip02(string(t1)))
 				return
 			}
 			obioptions.SetInputQualityShift(c.So) // the re-read uses the shift of what was just written
@@ -479,7 +479,7 @@ func replayRt(env *Env, c *c02Case) {
 			}
 			w2 := writeText(c.Fmt, r2)
 			if !bytes.Equal(w2, w1) {
-				assert, detail = "C02.rt.fixed_point", fmt.Sprintf("second write %q differs from the first %q", clip(string(w2)), clip(string(w1)))
+				assert, detail = "C02.rt.fixed_point", fmt.Sprintf("second write %q differs from the first %q", clip02(string(w2)), clip02(string(w1)))
 				return
 			}
 			// the same record built in memory from typed values, written at the input shift, is t0
@@ -500,14 +500,14 @@ func replayRt(env *Env, c *c02Case) {
 			w0 := writeText(c.Fmt, obiseq.BioSequenceSlice{fresh})
 			obioptions.SetOutputQualityShift(c.So)
 			if !bytes.Equal(w0, t0) {
-				assert, detail = "C02.rt.write_fresh", fmt.Sprintf("in-memory record written %q, specification %q", clip(string(w0)), clip(string(t0)))
+				assert, detail = "C02.rt.write_fresh", fmt.Sprintf("in-memory record written %q, specification %q", clip02(string(w0)), clip02(string(t0)))
 			}
 		})
 		switch {
 		case pmsg != "":
 			env.fail("C02.rt.panic", cl, "panic "+pmsg, c)
 		case !completed:
-			env.fail("C02.rt.fatal", cl, "log.Fatal on a text of the specification: "+clip(strings.Join(lastFatal(), "; ")), c)
+			env.fail("C02.rt.fatal", cl, "log.Fatal on a text of the specification: "+clip02(strings.Join(lastFatal(), "; ")), c)
 		case assert != "":
 			env.fail(assert, cl, fmt.Sprintf("%s len=%d q=%s shifts %d->%d (%s): %s", c.Fmt, c.Len, c.Qp, c.Si, c.So, parser, detail), c)
 		}
@@ -548,7 +548,7 @@ func replayC02(env *Env) {
 			obioptions.SetInputQualityShift(k[0])
 			replayRt(env, c)
 			if i == 17 {
-				env.sample(map[string]any{"record_case": c.Cls, "len": c.Len, "shifts": k, "t0": clip(string(render(c.T0)))})
+				env.sample(map[string]any{"record_case": c.Cls, "len": c.Len, "shifts": k, "t0": clip02(string(render(c.T0)))})
 			}
 		}
 	}
@@ -879,7 +879,7 @@ func recordRtEvent(g gen, format, parser string, si, so int, classes map[string]
 	if pmsg != "" {
 		ev.Fatal, ev.Why = 1, "panic: "+pmsg
 	} else if !completed {
-		ev.Fatal, ev.Why = 1, clip(strings.Join(lastFatal(), "; "))
+		ev.Fatal, ev.Why = 1, clip02(strings.Join(lastFatal(), "; "))
 	}
 	return ev
 }
@@ -939,7 +939,7 @@ func recordHdrEvent(g gen, parser string, classes map[string]int) *c02Event {
 	if pmsg != "" {
 		ev.Fatal, ev.Why = 1, "panic: "+pmsg
 	} else if !completed {
-		ev.Fatal, ev.Why = 1, clip(strings.Join(lastFatal(), "; "))
+		ev.Fatal, ev.Why = 1, clip02(strings.Join(lastFatal(), "; "))
 	}
 	return ev
 }
